@@ -2,6 +2,9 @@ import CodeLimit.Props.C01py
 import CodeLimit.Lemmas.PyTreeScan
 import CodeLimit.Lemmas.PyTreeReport
 import CodeLimit.Lemmas.PyTreeNodes
+import CodeLimit.Lemmas.SynHeaderMeasure
+import CodeLimit.Lemmas.LayoutSortedEq
+import CodeLimit.Lemmas.PyTreeMarks
 /-!
 # C01 for Python, end to end at token level: from an INDENTATION TREE to the report
 
@@ -35,6 +38,16 @@ PUNCTUATION tokens `(` / `)`, as `Balanced` does with `Symbol` since the repair 
   repair of F25), is gone: a name token is not a punctuation token; the former counterexample is
   now reported.
 
+## Part 1a - stage C without discovery hypothesis; every measurement is a `def`
+
+* `headers_of_pyLayout`, `scan_of_pyLayout_syn` - `C01py.scan_of_pyLayout_python` with the hypothesis
+  `extractHeaders … = .ok …` replaced by conditions on the token list ("the headers of the functions
+  are exactly the `def` headers"); covers backslash continuation and string literals over several
+  lines (`pyLayout_syn_example`), which the tree grammar of Part 2 leaves out;
+* `measurement_is_defHeader` - every measurement of `scan_file` on ANY token list (ordered
+  locations) belongs to a `def` header, starts at `def`, is named by the token after it, ends
+  behind the header.
+
 ## Part 2 - indentation trees (`Spec/PyTree.lean`)
 
 `PyProg PTok`: a forest of statements: simple statements (`line`), compound statements that are
@@ -57,6 +70,19 @@ nesting depth):
   tree-level one (`pyTreeReport`);
 * `scan_of_pytree` - **`scan_file` on the rendering returns exactly the tree report**,
   unconditionally.
+
+## Part 3 - comments and suppression markers (C04 / C17 for Python trees)
+
+* `scan_of_pytree_marked` - for ANY token list `all` whose code tokens are the rendering of a
+  well-formed forest (comments anywhere, any of them a `nocl` marker): `scan_file all` =
+  `pyMarkedReport t all`, the tree report of the forest in which the `def` nodes named on a marked
+  line are dissolved into compound statements; unconditional;
+* `reported_functions_py` (omitted exactly when, on the output), `toggle_marker_py`,
+  `comments_in_place_invisible_py`, `pyMarkedReport_unmarked`; example `Ex.allMarked` (a marked
+  method, a marked nested function whose lines then count for its parent, a decoy).
+
+The side conditions are needed: `Ex.same_indentation_needed`, `Ex.deeper_continuation_needed`
+(negation forms, ONE clause of `PyProg.wf` switched off: `Ex.wfP`).
 
 The fragment: statements, head lines and parameter lists may span several physical lines
 (brackets) provided every continuation line is indented deeper than the header line of the
@@ -126,6 +152,151 @@ theorem python_headers_sorted (toks : List Tok) (hs : List Header)
     (h : extractHeaders Gen.python toks = .ok hs) :
     hs.Pairwise (fun a b => a.rng.s < b.rng.s) :=
   extractHeaders_python_sorted h
+
+/-! ## Part 1a: stage C (`PyLayout`) WITHOUT the discovery hypothesis
+
+`C01py.scan_of_pyLayout_python` assumes `extractHeaders Gen.python code = .ok (fns.map (·.hdr))` -
+a statement about an intermediate result of the analysis.  With the syntactic characterisation
+above it becomes a condition on the token list: the headers of `fns` are exactly the `def` headers
+of `code`.  This covers what the tree grammar of Part 2 leaves out: backslash continuation and
+string literals over several lines (they are inside `PyLayout`). -/
+
+/-- **Header discovery on a Python layout, from syntactic conditions.**  If every function of
+`fns` has a `def` header `def Name ( … )+` as its header range, named by the token after `def`, and
+every `def` header of the token list is the header of one of the functions, then `extract_headers`
+returns exactly the headers of `fns`, in source order.  (`PyLayout` contributes: the functions are
+listed in source order, a header is followed by a token, and no function starts inside the header
+of another - so no `def Name (` stands inside a parameter list.) -/
+theorem headers_of_pyLayout {code : List Tok} {fns : List Fn} (hL : PyLayout code fns)
+    (hdef : ∀ f ∈ fns, DefHeader code f.hdr.rng.s f.hdr.rng.e ∧
+      code[f.hdr.rng.s + 1]? = some f.hdr.name)
+    (hall : ∀ p f, DefHeader code p f → ∃ g ∈ fns, g.hdr.rng = ⟨p, f⟩) :
+    extractHeaders Gen.python code = .ok (fns.map (·.hdr)) := by
+  obtain ⟨hs, h⟩ := python_headers_total code
+  rw [h]
+  congr 1
+  have hsorted := python_headers_sorted code hs h
+  have hfs : (fns.map (·.hdr)).Pairwise (fun a b => a.rng.s < b.rng.s) := by
+    rw [List.pairwise_map]; exact hL.fns_sorted
+  refine eq_of_pairwise_key_lt (fun hd : Header => hd.rng.s) hsorted hfs (fun hd => ?_)
+  constructor
+  · intro hhd
+    obtain ⟨s1, s2⟩ := python_header_sound code hs h hd hhd
+    obtain ⟨g, hg, hgr⟩ := hall _ _ s1
+    have hgn := (hdef g hg).2
+    have hs' : g.hdr.rng.s = hd.rng.s := by rw [hgr]
+    rw [hs', s2] at hgn
+    have : g.hdr = hd := by
+      cases hgd : g.hdr with
+      | mk nm rng =>
+        rw [hgd] at hgn hgr
+        simp only [Option.some.injEq] at hgn
+        cases hd with
+        | mk nm' rng' =>
+          simp only at hgn hgr
+          rw [← hgn, hgr]
+    rw [← this]
+    exact List.mem_map_of_mem hg
+  · intro hhd
+    obtain ⟨f, hf, rfl⟩ := List.mem_map.1 hhd
+    obtain ⟨d1, d2⟩ := hdef f hf
+    have hok := hL.fn_ok f hf
+    obtain ⟨hd, hhd', hr, hn, _⟩ := python_header_complete code hs h _ _ d1 (by omega) (by
+      intro q hq1 hq2 ⟨k1, k2, k3⟩
+      -- a `def Name (` inside the parameter list would be the header of a function of `fns`
+      obtain ⟨g, hg, hgr⟩ := hall q (groupsEnd code (q + 2)) ⟨k1, k2, k3, rfl⟩
+      have hgs : g.hdr.rng.s = q := by rw [hgr]
+      have hokg := hL.fn_ok g hg
+      by_cases hfg : f = g
+      · subst hfg; omega
+      · rcases hL.order_or hf hg hfg with h' | h' <;> omega)
+    rw [d2] at hn
+    have : hd = f.hdr := by
+      cases hd with
+      | mk nm rng =>
+        simp only at hr hn
+        simp only [Option.some.injEq] at hn
+        cases hfd : f.hdr with
+        | mk nm' rng' =>
+          rw [hfd] at hn
+          simp only at hn
+          rw [hr, ← hn]
+          congr 1
+          rw [hfd]
+    rw [← this]; exact hhd'
+
+/-- **C01 for Python at the level of token indices, WITHOUT discovery hypothesis**
+(`C01py.scan_of_pyLayout_python` with `hh` replaced by conditions on the token list).  Let `code` be
+the code tokens of a file and `fns` functions such that
+
+* `PyLayout code fns`: the indentation structure of a canonical Python file (logical lines incl.
+  backslash continuation and string literals over several lines),
+* every function's header range is a `def` header `def Name ( … )+` named by the token after `def`,
+* every `def` header of `code` is the header of one of the functions,
+* no function is marked with a suppression comment.
+
+Then `scan_file` reports exactly the functions `fns`, each once, in source order, each with its
+expected measurement. -/
+theorem scan_of_pyLayout_syn {all code : List Tok} {fns : List Fn}
+    (hcode : filterTokens false all = code) (hL : PyLayout code fns)
+    (hdef : ∀ f ∈ fns, DefHeader code f.hdr.rng.s f.hdr.rng.e ∧
+      code[f.hdr.rng.s + 1]? = some f.hdr.name)
+    (hall : ∀ p f, DefHeader code p f → ∃ g ∈ fns, g.hdr.rng = ⟨p, f⟩)
+    (hm : ∀ f ∈ fns, ¬ Marked all f.hdr.name.line) :
+    ∃ ms, scanFile Gen.python all = .ok ms ∧ ms.map some = fns.map (expected code fns) :=
+  C01py.scan_of_pyLayout_python hcode (headers_of_pyLayout hL hdef hall) hL hm
+
+/-- the condition "every `def` header is the header of one of the functions" is decidable: it
+suffices to look at the positions inside the token list -/
+theorem defHeaders_listed_of_bounded {code : List Tok} {fns : List Fn}
+    (h : ∀ p, p < code.length → DefHeader code p (groupsEnd code (p + 2)) →
+      ∃ g ∈ fns, g.hdr.rng = ⟨p, groupsEnd code (p + 2)⟩) :
+    ∀ p f, DefHeader code p f → ∃ g ∈ fns, g.hdr.rng = ⟨p, f⟩ := by
+  intro p f hd
+  obtain ⟨⟨t, ht, _⟩, _, _, rfl⟩ := id hd
+  exact h p (List.getElem?_eq_some_iff.1 ht).1 hd
+
+/-- **non-vacuity of `scan_of_pyLayout_syn`**: the file of `Lemmas/PyLayoutExamples.lean` (tokens
+of the real lexer; a backslash continuation onto a line at column 1, a string literal over two
+lines whose second line stands at column 1, a header over two lines, `async def`, a nested `def`
+as last statement) satisfies all hypotheses - the three conditions on headers are decided in the
+kernel - and the conclusion agrees with the independent evaluation `C01py.scan_example`.  This
+file is OUTSIDE the tree grammar of Part 2 (continuation tokens). -/
+theorem pyLayout_syn_example :
+    ¬ NoContinuation C01PyEx.code ∧
+    (∀ f ∈ C01PyEx.fns, DefHeader C01PyEx.code f.hdr.rng.s f.hdr.rng.e ∧
+      C01PyEx.code[f.hdr.rng.s + 1]? = some f.hdr.name) ∧
+    (∀ p f, DefHeader C01PyEx.code p f → ∃ g ∈ C01PyEx.fns, g.hdr.rng = ⟨p, f⟩) ∧
+    ∃ ms, scanFile Gen.python C01PyEx.all = .ok ms ∧
+      ms.map some = C01PyEx.fns.map (expected C01PyEx.code C01PyEx.fns) := by
+  have h1 : ∀ f ∈ C01PyEx.fns, DefHeader C01PyEx.code f.hdr.rng.s f.hdr.rng.e ∧
+      C01PyEx.code[f.hdr.rng.s + 1]? = some f.hdr.name := by decide +kernel
+  have h2 := defHeaders_listed_of_bounded (code := C01PyEx.code) (fns := C01PyEx.fns)
+    (by decide +kernel)
+  exact ⟨C01PyEx.not_noContinuation, h1, h2,
+    scan_of_pyLayout_syn C01PyEx.code_all C01PyEx.layout h1 h2 C01PyEx.unmarked⟩
+
+/-- **"Reports nothing that is not a function definition", Python, on the output.**  For every
+token list whose code tokens stand at strictly increasing locations (C16): each measurement of
+`scan_file` belongs to a `def` header `def Name ( … )+` of the code tokens, starts at the location
+of the keyword `def` (`toks[p]`), carries the text of the Name token `toks[p + 1]`, ends just past a
+code token `toks[e - 1]` behind the header, and has `1 ≤ len ≤` the number of distinct lines of
+`toks[p..e)`. -/
+theorem measurement_is_defHeader (all : List Tok) (ms : List Measurement)
+    (h : scanFile Gen.python all = .ok ms) (toks : List Tok)
+    (htoks : toks = filterTokens false all)
+    (hpos : toks.Pairwise (fun a b => a.line < b.line ∨ (a.line = b.line ∧ a.col < b.col))) :
+    ∀ m ∈ ms, ∃ p f e kw t last, DefHeader toks p f ∧
+      toks[p]? = some kw ∧ (m.sl, m.sc) = (kw.line, kw.col) ∧
+      toks[p + 1]? = some t ∧ m.name = t.val ∧
+      f < e ∧ e ≤ toks.length ∧ toks[e - 1]? = some last ∧ (m.el, m.ec) = last.endPos ∧
+      1 ≤ m.len ∧ m.len ≤ countDistinct (((toks.drop p).take (e - p)).map (·.line)) := by
+  subst htoks
+  intro m hm
+  obtain ⟨hs, hd, e, first, last, hhs, hhd, h1, h2, h3, h4, h5, h6, h7, h8, h9⟩ :=
+    Compose.measurement_from_header_full Gen.python python_shipped all (.inr hpos) h m hm
+  obtain ⟨s1, s2⟩ := python_header_sound _ hs hhs hd hhd
+  exact ⟨hd.rng.s, hd.rng.e, e, first, hd.name, last, s1, h3, h5, s2, h6, h1, h2, h4, h7, h8, h9⟩
 
 /-- the tokens of `def f ( a = g ( 1 ) ) : pass` -/
 def callToks : List Tok :=
@@ -204,7 +375,7 @@ def unclosedToks : List Tok :=
 `def h ( def f ( x )` followed by the end of the input both `[0, 8)` and `[3, 8)` are `def`
 headers; they finish together at the end of the input, the earlier start is committed first,
 and `def f ( x )` is not reported. -/
-theorem completeness_at_end_of_input_fails :
+theorem completeness_at_end_of_input_witness :
     DefHeader unclosedToks 3 8 ∧ DefHeader unclosedToks 0 8 ∧ unclosedToks.length = 8 ∧
     (∀ q, 3 < q → q + 3 < 8 → ¬ (KeywordAt unclosedToks q defStr ∧ NameAt unclosedToks (q + 1) ∧
       OpenAt unclosedToks (q + 2))) ∧
@@ -214,6 +385,21 @@ theorem completeness_at_end_of_input_fails :
   have : q = 4 := by omega
   subst this
   decide
+
+/-- **Completeness WITHOUT the hypothesis "a token follows the header" is false** (the negation,
+from `completeness_at_end_of_input_witness`). -/
+theorem completeness_at_end_of_input_fails :
+    ¬ ∀ (toks : List Tok) (hs : List Header) (p f : Nat),
+      extractHeaders Gen.python toks = .ok hs → DefHeader toks p f →
+      (∀ q, p < q → q + 3 < f →
+        ¬ (KeywordAt toks q defStr ∧ NameAt toks (q + 1) ∧ OpenAt toks (q + 2))) →
+      ∃ hd ∈ hs, hd.rng = ⟨p, f⟩ := by
+  intro h
+  obtain ⟨h1, _, _, h4, h5⟩ := completeness_at_end_of_input_witness
+  obtain ⟨hd, hhd, hr⟩ := h _ _ 3 8 h5 h1 h4
+  rw [List.mem_singleton] at hhd
+  subst hhd
+  cases hr
 
 /-! ## Part 2: indentation trees -/
 
@@ -346,6 +532,106 @@ theorem scan_of_pytree {t : PyProg PTok} (hw : t.wf = true) :
     rw [pyRender_eq]; exact (place_plain _ (PyProg.wf_iff.mp hw).2).2
   exact scan_of_pytree_all hw (filterTokens_of_allCode hc) (fun _ _ => not_marked_of_allCode hc _)
 
+/-! ## Part 3: comments and suppression markers (C04 / C17 for Python trees)
+
+The tokens of an indentation tree are code tokens; comments stand in the token list `all` of the
+file (anywhere: own lines at any indentation, trailing), and any of them may be a suppression
+marker.  `noclLines all` = the lines that carry a marker; `PyProg.dissolve lines` turns every `def`
+node whose NAME token stands on one of the lines into an ordinary compound statement (same tokens,
+no function any more); `pyMarkedReport t all` = the tree report of the dissolved located forest
+(`Spec/PyTree.lean`). -/
+
+/-- **C01 + C17 + C04 for Python trees: `scan_file` on a file with comments and markers.**  Let `t`
+be a well-formed forest and `all` ANY token list whose code tokens are the rendering of `t`
+(comments and whitespace tokens anywhere, any of the comments a suppression marker).  Then
+`scan_file` succeeds and returns `pyMarkedReport t all`: every `def` node whose name does not stand
+on a marked line, in source order, from its `def` token to just past its suite, with the number of
+distinct lines of its own code tokens; the code tokens of a suppressed function count for the
+nearest enclosing function that is left, and the functions nested in it are re-parented.  No
+hypothesis about the matcher. -/
+theorem scan_of_pytree_marked {t : PyProg PTok} (hw : t.wf = true) {all : List Tok}
+    (hcode : filterTokens false all = pyRender t) :
+    scanFile Gen.python all = .ok (pyMarkedReport t all) :=
+  scan_pytree_marked hw hcode
+
+/-- without a marker on a name line the report is the tree report (`scan_of_pytree_all` is the
+special case) -/
+theorem pyMarkedReport_unmarked {t : PyProg PTok} {all : List Tok}
+    (hm : ∀ f ∈ pyFnsOf t.located 0, ¬ Marked all f.hdr.name.line) :
+    pyMarkedReport t all = pyTreeReport t.located := by
+  unfold pyMarkedReport
+  have hno : ∀ x ∈ t.located.nameToks, (noclLines all).contains x.line = false := by
+    intro x hx
+    rw [← pyFnsOf_names t.located 0] at hx
+    obtain ⟨f, hf, rfl⟩ := List.mem_map.1 hx
+    have := hm f hf
+    rw [← contains_noclLines_iff] at this
+    simpa [noclLines] using this
+  rw [pyDissolve_of_not_named _ _ hno]
+
+/-- **C17 for Python, "omitted exactly when", on the OUTPUT.**  `scan_file` succeeds; its entries
+correspond one to one, in order, to the `def` nodes of the forest whose NAME token stands on a line
+WITHOUT a marker comment, and every entry carries the text of the name token of its node. -/
+theorem reported_functions_py {t : PyProg PTok} (hw : t.wf = true) {all : List Tok}
+    (hcode : filterTokens false all = pyRender t) :
+    scanFile Gen.python all
+      = .ok ((pyTreeReportNamed (t.located.dissolve (noclLines all))).map (·.2)) ∧
+    (pyTreeReportNamed (t.located.dissolve (noclLines all))).map (·.1)
+      = t.located.nameToks.filter (fun x => !(noclLines all).contains x.line) ∧
+    ∀ x ∈ pyTreeReportNamed (t.located.dissolve (noclLines all)), x.2.name = x.1.val :=
+  ⟨by rw [scan_of_pytree_marked hw hcode, pyTreeReportNamed_snd]; rfl,
+   by rw [pyTreeReportNamed_fst, nameToks_pyDissolve], pyTreeReportNamed_name _⟩
+
+/-- a line is marked iff it carries a comment token whose text is a suppression marker -/
+theorem noclLines_iff (all : List Tok) (l : Nat) :
+    l ∈ noclLines all ↔ ∃ c ∈ all, c.isComment = true ∧ isNoclText c.val = true ∧ c.line = l := by
+  rw [noclLines, ← marked_iff_mem_lines]
+  rfl
+
+/-- **C04 for Python trees: comments that do not move the code are invisible.**  Two token lists
+with the same code tokens (the rendering of `t`: every code token at the same location - comments
+and whitespace tokens inserted or deleted anywhere, e.g. trailing comments or comment-only lines
+where a blank line was) and the same marked-ness of the name lines give the same analysis.
+(Insertions that MOVE code lines: the token-level theorems `C04.scanFile_insert_lines`,
+`C04.scanFile_editInvisible` hold for Python, too.) -/
+theorem comments_in_place_invisible_py {t : PyProg PTok} (hw : t.wf = true) {all all' : List Tok}
+    (hcode : filterTokens false all = pyRender t) (hcode' : filterTokens false all' = pyRender t)
+    (hmark : ∀ x ∈ t.located.nameToks,
+      (noclLines all').contains x.line = (noclLines all).contains x.line) :
+    scanFile Gen.python all' = scanFile Gen.python all := by
+  rw [scan_of_pytree_marked hw hcode, scan_of_pytree_marked hw hcode']
+  unfold pyMarkedReport
+  rw [pyDissolve_congr_names _ hmark]
+
+/-- **C17 for Python, toggling a marker.**  `all'` has the same code tokens as `all` and one more
+marked line `l` (a marker comment added where it does not move the code, e.g. trailing); no
+function named on line `l` is inside another (reported) function.  Then the report for `all'` is
+the report for `all` without the entries of the functions named on line `l`: every other function
+keeps its name, span and length and its place in the report.  (A function that IS nested: its
+lines then count for the enclosing function, as `pyMarkedReport` says.) -/
+theorem toggle_marker_py {t : PyProg PTok} (hw : t.wf = true) {all all' : List Tok} {l : Nat}
+    (hcode : filterTokens false all = pyRender t) (hcode' : filterTokens false all' = pyRender t)
+    (hmark : ∀ x, x ∈ noclLines all' ↔ x ∈ noclLines all ∨ x = l)
+    (hind : (t.located.dissolve (noclLines all)).notNestedOn l = true) :
+    scanFile Gen.python all
+      = .ok ((pyTreeReportNamed (t.located.dissolve (noclLines all))).map (·.2)) ∧
+    scanFile Gen.python all'
+      = .ok (((pyTreeReportNamed (t.located.dissolve (noclLines all))).filter
+          (fun x => decide (x.1.line ≠ l))).map (·.2)) := by
+  refine ⟨(reported_functions_py hw hcode).1, ?_⟩
+  rw [scan_of_pytree_marked hw hcode']
+  unfold pyMarkedReport
+  have he : t.located.dissolve (noclLines all')
+      = (t.located.dissolve (noclLines all)).dissolve [l] := by
+    rw [pyDissolve_dissolve]
+    apply pyDissolve_congr_names
+    intro x _
+    rw [Bool.eq_iff_iff]
+    simp only [List.contains_iff_mem, List.mem_append, List.mem_singleton]
+    rw [hmark x.line]
+    exact or_comm
+  rw [he, py_toggle_named l _ hind, pyTreeReportNamed_snd]
+
 /-! ## forests as lists of rose-tree nodes -/
 
 /-- **Forests are lists of nodes.**  `PyProg` encodes a forest by "first statement, remaining
@@ -476,7 +762,120 @@ example : PyLayout (pyRender tree) (pyFnsOf tree.located 0) := layout_of_pytree 
 
 example : PyLayout (pyRender tree) (pyFnsOf tree.located 0) := by decide +kernel
 
-/-! ### the well-formedness conditions matter -/
+/-! ### comments and markers on the example
+
+The file above with three comments: `#NOCL x` behind `def m1(self):` (line 3), `# nocl` behind
+`def g():` (line 15, `g` is nested in `f`), and the decoy `# see nocl` behind `def k():` (line 24). -/
+
+/-- the token list of the file with the three comments (comment tokens may stand anywhere in the
+list: `filter_tokens` drops them, the marker lines are read off their locations) -/
+def allMarked : List Tok :=
+  pyRender tree ++ [cmT [35, 32, 110, 111, 99, 108] 15 20, cmT [35, 78, 79, 67, 76, 32, 120] 3 30,
+    cmT [35, 32, 115, 101, 101, 32, 110, 111, 99, 108] 24 20]
+
+/-- the marked lines are 15 and 3 (the decoy on line 24 is no marker) -/
+theorem allMarked_lines : noclLines allMarked = [15, 3] ∧
+    filterTokens false allMarked = pyRender tree := by decide +kernel
+
+/-- **Part 3 applies**: `m1` and `g` are omitted; the 3 own lines of the suppressed `g` (15, 16, 18)
+count for `f`, which now has 6; `h` and `k` keep their entries - these are the numbers the real
+`scan_file` returns for the file, and the kernel evaluation of the model agrees -/
+theorem allMarked_scan : scanFile Gen.python allMarked
+    = .ok [⟨[109, 50], 6, 11, 12, 17, 7⟩, ⟨[102], 14, 1, 25, 17, 6⟩, ⟨[104], 21, 9, 23, 17, 3⟩,
+           ⟨[107], 24, 5, 25, 17, 2⟩] := by
+  rw [scan_of_pytree_marked tree_wf allMarked_lines.2]
+  decide +kernel
+
+example : scanFile Gen.python allMarked
+    = .ok [⟨[109, 50], 6, 11, 12, 17, 7⟩, ⟨[102], 14, 1, 25, 17, 6⟩, ⟨[104], 21, 9, 23, 17, 3⟩,
+           ⟨[107], 24, 5, 25, 17, 2⟩] := scanFile_eval (by decide +kernel)
+
+/-- the same file without the marker on line 3 -/
+def allMarked0 : List Tok :=
+  pyRender tree ++ [cmT [35, 32, 110, 111, 99, 108] 15 20,
+    cmT [35, 32, 115, 101, 101, 32, 110, 111, 99, 108] 24 20]
+
+/-- **the toggle theorem applies** to line 3 (`m1` is a method of a class, not nested in a
+function): adding the marker removes exactly the entry of `m1` -/
+theorem allMarked_toggle :
+    scanFile Gen.python allMarked0
+      = .ok [⟨[109, 49], 3, 5, 4, 17, 2⟩, ⟨[109, 50], 6, 11, 12, 17, 7⟩, ⟨[102], 14, 1, 25, 17, 6⟩,
+             ⟨[104], 21, 9, 23, 17, 3⟩, ⟨[107], 24, 5, 25, 17, 2⟩] ∧
+    scanFile Gen.python allMarked
+      = .ok [⟨[109, 50], 6, 11, 12, 17, 7⟩, ⟨[102], 14, 1, 25, 17, 6⟩, ⟨[104], 21, 9, 23, 17, 3⟩,
+             ⟨[107], 24, 5, 25, 17, 2⟩] := by
+  have h := toggle_marker_py (t := tree) (all := allMarked0) (all' := allMarked) (l := 3) tree_wf
+    (by decide +kernel) allMarked_lines.2
+    (by
+      intro x
+      have h0 : noclLines allMarked0 = [15] := by decide +kernel
+      rw [allMarked_lines.1, h0]
+      simp only [List.mem_cons, List.not_mem_nil, or_false])
+    (by decide +kernel)
+  refine ⟨h.1.trans ?_, h.2.trans ?_⟩ <;> decide +kernel
+
+/-! ### the well-formedness conditions matter
+
+To ISOLATE a clause of `PyProg.wf`, `wfAtP same cont` is `PyProg.wfAt` with two switches:
+`same = false` weakens "all statements of a suite have ONE indentation" to "every statement is
+indented at least as deep as the first one"; `cont = false` drops "a continuation line is indented
+deeper than the header line of the innermost enclosing function".  `wfAtP true true` IS `wfAt`
+(`wfAtP_eq`). -/
+
+/-- `pyStmtAt` with the two switches -/
+def pyStmtAtP (same cont : Bool) (c lim : Nat) : List PTok → Bool
+  | [] => false
+  | t :: ts => t.nl != 0 && (if same then t.col == c else decide (c ≤ t.col))
+      && ts.all (fun u => u.nl == 0 || !cont || decide (lim ≤ u.col))
+
+/-- `pyLineAt` with the first switch -/
+def pyLineAtP (same : Bool) (c : Nat) : List PTok → Bool
+  | [] => false
+  | t :: ts => t.nl != 0 && (if same then t.col == c else decide (c ≤ t.col))
+      && ts.all (·.nl == 0)
+
+/-- `PyProg.wfAt` with the two switches -/
+def wfAtP (same cont : Bool) (c lim : Nat) : PyProg PTok → Bool
+  | .nil => true
+  | .line toks rest =>
+    pyStmtAtP same cont c lim toks && pyNoDef toks && wfAtP same cont c lim rest
+  | .block head suite rest =>
+    pyStmtAtP same cont c lim head && pyNoDef head && !suite.isNil && decide (c < suite.col)
+      && wfAtP same cont suite.col lim suite && wfAtP same cont c lim rest
+  | .defn pre kw name params post suite rest =>
+    pyLineAtP same c (pre ++ [kw]) && pyNoDef pre && Syn.isDefTok kw.bare && name.bare.isName
+      && !params.isEmpty && groupsExact (params.map PTok.bare) 0
+      && (name :: params).all (fun t => t.nl == 0 || !cont || decide (lim ≤ t.col))
+      && pyNoDef (name :: params)
+      && !post.isEmpty && post.all (·.nl == 0) && pyNoDef post
+      && !Syn.isOpen (post.headD default).bare
+      && !suite.isNil && decide (c < suite.col) && wfAtP same cont suite.col (c + 1) suite
+      && wfAtP same cont c lim rest
+
+theorem pyStmtAtP_eq (c lim : Nat) (l : List PTok) : pyStmtAtP true true c lim l = pyStmtAt c lim l := by
+  cases l <;> simp [pyStmtAtP, pyStmtAt]
+
+theorem pyLineAtP_eq (c : Nat) (l : List PTok) : pyLineAtP true c l = pyLineAt c l := by
+  cases l <;> simp [pyLineAtP, pyLineAt]
+
+/-- with both switches on, `wfAtP` is `PyProg.wfAt` -/
+theorem wfAtP_eq : ∀ (t : PyProg PTok) (c lim : Nat), wfAtP true true c lim t = t.wfAt c lim
+  | .nil, _, _ => rfl
+  | .line toks rest, c, lim => by
+    simp only [wfAtP, PyProg.wfAt, pyStmtAtP_eq, wfAtP_eq rest]
+  | .block head suite rest, c, lim => by
+    simp only [wfAtP, PyProg.wfAt, pyStmtAtP_eq, wfAtP_eq suite, wfAtP_eq rest]
+  | .defn pre kw name params post suite rest, c, lim => by
+    simp only [wfAtP, PyProg.wfAt, pyLineAtP_eq, wfAtP_eq suite, wfAtP_eq rest, Bool.not_true,
+      Bool.or_false]
+
+/-- `PyProg.wf` with the two switches -/
+def wfP (same cont : Bool) (t : PyProg PTok) : Bool :=
+  wfAtP same cont t.col 0 t && t.flat.all PTok.plain
+
+theorem wfP_eq (t : PyProg PTok) : wfP true true t = t.wf := by
+  simp only [wfP, PyProg.wf, wfAtP_eq]
+
 
 /-- a statement that follows a nested `def` but is indented DEEPER than that `def` (and less deep
 than its suite):
@@ -500,12 +899,26 @@ def skewTree : PyProg PTok :=
            (.line [pt 1 [112, 97, 115, 115] 1 12] .nil) <|
        .line [pt 2 [99] 1 6] .nil) .nil
 
-theorem same_indentation_needed :
-    skewTree.wf = false ∧
+theorem same_indentation_witness :
+    skewTree.wf = false ∧ wfP false true skewTree = true ∧
     scanFile Gen.python (pyRender skewTree)
       = .ok [⟨[102], 1, 1, 4, 8, 1⟩, ⟨[103], 2, 5, 4, 8, 3⟩] ∧
     pyTreeReport skewTree.located = [⟨[102], 1, 1, 4, 8, 2⟩, ⟨[103], 2, 5, 3, 17, 2⟩] :=
-  ⟨by decide +kernel, scanFile_eval (by decide +kernel), by decide +kernel⟩
+  ⟨by decide +kernel, by decide +kernel, scanFile_eval (by decide +kernel), by decide +kernel⟩
+
+/-- **The clause "all statements of a suite have ONE indentation" is needed**: `scan_of_pytree`
+with that clause weakened to "at least as deep as the first statement" (every other clause of
+`PyProg.wf` kept: `wfP false true`) is FALSE; `skewTree` is the witness
+(`same_indentation_witness`). -/
+theorem same_indentation_needed :
+    ¬ ∀ (t : PyProg PTok), wfP false true t = true →
+      scanFile Gen.python (pyRender t) = .ok (pyTreeReport t.located) := by
+  intro h
+  obtain ⟨_, h2, h3, h4⟩ := same_indentation_witness
+  have := h skewTree h2
+  rw [h3, h4] at this
+  revert this
+  decide
 
 /-- a continuation line of a nested header that is NOT indented deeper than the enclosing
 function (the file of `C01py.shallow_header_line`, as a tree):
@@ -529,12 +942,26 @@ def shallowTree : PyProg PTok :=
        .line [pt 2 [120] 1 4, pt 4 [61] 0 1, pt 0 [49] 0 1] <|
        .line [pt 1 [114, 101, 116, 117, 114, 110] 1 4, pt 2 [120] 0 6] .nil) .nil
 
-theorem deeper_continuation_needed :
-    shallowTree.wf = false ∧
+theorem deeper_continuation_witness :
+    shallowTree.wf = false ∧ wfP true false shallowTree = true ∧
     pyTreeReport shallowTree.located = [⟨[103], 1, 1, 6, 13, 3⟩, ⟨[102], 2, 5, 4, 13, 3⟩] ∧
     scanFile Gen.python (pyRender shallowTree)
       = .ok [⟨[103], 1, 1, 2, 13, 2⟩, ⟨[102], 2, 5, 4, 13, 3⟩] :=
-  ⟨by decide +kernel, by decide +kernel, scanFile_eval (by decide +kernel)⟩
+  ⟨by decide +kernel, by decide +kernel, by decide +kernel, scanFile_eval (by decide +kernel)⟩
+
+/-- **The clause "a continuation line is indented deeper than the header line of the innermost
+enclosing function" is needed**: `scan_of_pytree` with that clause dropped (every other clause of
+`PyProg.wf` kept: `wfP true false`) is FALSE; `shallowTree` is the witness
+(`deeper_continuation_witness`).  The file is legal Python. -/
+theorem deeper_continuation_needed :
+    ¬ ∀ (t : PyProg PTok), wfP true false t = true →
+      scanFile Gen.python (pyRender t) = .ok (pyTreeReport t.located) := by
+  intro h
+  obtain ⟨_, h2, h3, h4⟩ := deeper_continuation_witness
+  have := h shallowTree h2
+  rw [h3, h4] at this
+  revert this
+  decide
 
 end Ex
 end CL.C01pyfull
